@@ -3,7 +3,7 @@ from checks import kern, fpgrid, modelstep
 
 TECHNIQUE = "symbolic execution of the real integration methods on z3-real proxies with state merging and cuts, plus IEEE-754 (QF_FP) execution of the real grid/keyring size code; SMT obligations (z3, cvc5 portfolio); counterexamples replayed on the unpatched code"
 EXPLANATION = "Same real step; obligations: each recorded flow times max(1, sum of requested fractions) equals stock times the documented fraction (probability/rate p*dt/T, duration dt/(d*T), number N*dt/T over the parameter's total source size, 0 for an empty source), source compartments emit exactly N*dt/T, a number parameter shared by two compartments is split by source size, timed duration-preserving links follow the same rule per row. Bounds: micro-graphs as listed per group; |values| <= 1e9, dt in [1/365,5], timescales in [1e-3,1e3]; real arithmetic (tolerance 1e-9 relative, 1e-8 for C03). Outside: larger fan-outs, float rounding, multi-step interactions other than through the arbitrary pre-state."
-GROUP_TIMEOUT = {"quick": 900, "thorough": 3000}
+GROUP_TIMEOUT = {"quick": 1800, "thorough": 3600}
 
 
 def groups(tier):
